@@ -18,8 +18,13 @@ for fl, quick in (('MEMB', True), ('MB', True), ('QSBR', True), ('BP', True)):
             functions=FUNCS, native=(fl == 'MEMB'), timeout=120,
             tiers=('quick', 'thorough')))
 
+# poll handles are only as good as call_rcu: a callback queued DURING a grace period must not run at the end of that grace period
+# (shared with C03; late import via engine/check.py)
+def _shared():
+    from obligations import C03 as _c03
+    return [o for o in _c03.OBLIGATIONS if o.name in ('C03.O1.call_rcu_enqueue', 'C03.O2.thread_iteration', 'C03.O2.helper_sleep')]
 META = {
-    'level': 'proof',
+    'level': 'proof', 'bounded_apart': True,
     'trusted_base': ['CBMC 6.11 (goto-cc, goto-instrument contract replacement, SAT back end)',
                      'assumed contract of call_rcu (C03): callback runs once, after a grace period following the call; rcu_head not re-queued while pending',
                      'pthread_mutex_lock/unlock stubs with ghost held-flag (mutual exclusion of the three functions is what makes each an atomic monitor step)'],
